@@ -81,13 +81,22 @@ def IsMinTerm(m, TL, gpz, s):
 
 
 # --- _gamma: memoised Symbol(name, INT) -------------------------------------------------------
+def _cache_inv(c):
+    d = c._gamma_sym_cache if False else c._st.env["_gamma_sym_cache"]
+    n = z3.Const("_gc_n", StrSort)
+    mem, _w = L.mem_theory(StrSort)
+    return [Forall([n], [mem(d.keys, n)], z3.Implies(mem(d.keys, n), z3.Select(d.val, n) == IT.i_sym(n)), "gamma.cache")]
+
+
 Contract(
     "inference.c_revision:_gamma",
     params={"name": TStr},
     returns=TITerm,
+    globals={"_gamma_sym_cache": TDict(TITerm, TStr)},
+    module_inv=_cache_inv,
     ensures=lambda c, r: [r.t == IT.i_sym(c.name.t)],
-    trusted=True,
-    note="ASSUMED: the module-level cache only memoises Symbol(name, INT); pysmt symbols are identified by their name",
+    properties=["C19", "C17"],
+    note="the module-level cache only memoises Symbol(name, INT): invariant `cache[n] is the symbol named n`, holds for the empty initial cache, re-established at exit; no other function of the module touches the cache (checked)",
 )
 
 
